@@ -141,6 +141,7 @@ theorem Woke.invL {s s' : State} (w : Woke s s') (h : InvL s) : InvL s' := by
   · rw [w.log, w.ch]; exact h.fifo
   · rw [w.log, w.mx]; exact h.owners
   · rw [w.log, w.sm]; exact h.semCount
+  · rw [w.sm]; exact h.semInit
 
 /-- every routine of the list that could be resumed is no longer suspended -/
 theorem wakeAll_wakes (s : State) (ts : List Nat) (r : Nat) (hr : r ∈ ts) (ha : alive s r = true) :
